@@ -167,6 +167,17 @@ def check(rep):
                 # the written token, possibly with descriptors added on either side
                 if s not in e.generate_string(False):
                     rep.fail("oracle", f"molecule {text!r}: element {k} is {e.generate_string(False)!r}, written {s!r}", ident, expected=s, observed=e.generate_string(False))
+                # a token next to a stochastic object continues where that object's terminal points to: it carries a descriptor with the
+                # terminal's symbol AND id (written by the user or added automatically)
+                for nb, term, side in ((els[k - 1] if k > 0 else None, "right_terminal", "previous"), (els[k + 1] if k + 1 < len(els) else None, "left_terminal", "next")):
+                    if nb is None or type(nb).__name__ != "Stochastic":
+                        continue
+                    tdesc = getattr(nb, term)
+                    want = (tdesc.descriptor, str(tdesc.descriptor_id))
+                    have = [(b.descriptor, str(b.descriptor_id)) for b in e.bond_descriptors]
+                    if want not in have:
+                        rep.fail("oracle", f"molecule {text!r}: token {e.generate_string(False)!r} (element {k}) has descriptors {have} but the {side} object's terminal is "
+                                 f"{tdesc.generate_string(False)}", ident, expected=f"a descriptor {want}", observed=have)
                 continue
             if e.left_terminal.generate_string(False) != s["left"] or e.right_terminal.generate_string(False) != s["right"]:
                 rep.fail("oracle", f"molecule {text!r}: terminals of element {k} parsed as {e.left_terminal} / {e.right_terminal}", ident,
